@@ -15,6 +15,7 @@ import (
 	"verif/harness/h"
 	"verif/harness/m"
 	"verif/harness/rec"
+	"verif/harness/srcmut"
 )
 
 // Case is an accepted source text (plus inputs for running it).
@@ -93,12 +94,17 @@ func TestProp(t *testing.T) {
 	ctx := h.Setup(t, "C06")
 	all := corpus.All()
 	rapid.Check(t, func(t *rapid.T) {
-		mode := rapid.SampledFrom([]string{"model", "model", "model", "corpus", "relayout", "relayout", "model-relayout"}).Draw(t, "mode")
+		mode := rapid.SampledFrom([]string{"model", "model", "model", "corpus", "relayout", "relayout", "model-relayout", "mutant", "mutant", "mutant"}).Draw(t, "mode")
 		c := Case{Origin: mode}
 		switch mode {
 		case "corpus":
 			p := all[rapid.IntRange(0, len(all)-1).Draw(t, "prog")]
 			c.Src, c.Origin = p.Src, "corpus:"+p.Name
+		case "mutant": // whatever the parser still accepts after 1-2 token edits
+			p := all[rapid.IntRange(0, len(all)-1).Draw(t, "prog")]
+			q := all[rapid.IntRange(0, len(all)-1).Draw(t, "other")]
+			c.Src, _ = srcmut.Mutate(t, srcmut.Window(t, p.Src, 60), srcmut.Window(t, q.Src, 20), rapid.IntRange(1, 2).Draw(t, "k"))
+			c.Origin = "mutant:" + p.Name
 		case "relayout":
 			p := all[rapid.IntRange(0, len(all)-1).Draw(t, "prog")]
 			c.Src, _ = fmtx.Relayout(t, p.Src)
